@@ -562,6 +562,10 @@ func (f *FnCtx) newFrame(fn *ssa.Function, args, fvs []Val, top bool, depth int)
 	for n, i := range fr.aliasParams {
 		fr.params[n] = args[i]
 	}
+	// positional names: paramK is the K-th parameter whatever it is called (for a method, param0 is the receiver)
+	for i := range fn.Params {
+		fr.params[fmt.Sprintf("param%d", i)] = args[i]
+	}
 	for i, fv := range fn.FreeVars {
 		fr.vals[fv] = fvs[i]
 	}
